@@ -230,9 +230,38 @@ pub fn run_cond(ctx: &RunCtx) -> Outcome {
             v.push(bump(b, 2));
         }
         v.extend(space(&gen::cond_cfg(), 4, true).into_iter().filter(|x| x.has_cond() && !x.refs_valid(false)));
+        // a condition on the group it sits in, inside a loop: from the second iteration on the group has a value
+        // (that of the previous iteration), exactly as a later `(?(1)..)` outside the group would see it
+        {
+            use crate::ast::Q;
+            let bx = |n: crate::ast::Node| Box::new(n);
+            let lits = [Lit('b'), Lit('c'), Empty, Lit('a')];
+            for pre in [Empty, Lit('x')] {
+                for head in [Empty, Lit('a')] {
+                    for y in &lits {
+                        for no in &lits {
+                            let conds = if *y == Empty && *no == Empty { vec![GroupExists(1)] } else { vec![CondGroup(1, bx(y.clone()), bx(no.clone()))] };
+                            for cond in conds {
+                                let body = super::api::flatten(Concat(vec![pre.clone(), Group(bx(super::api::flatten(Concat(vec![head.clone(), cond.clone()]))))]));
+                                if !body.repeatable() {
+                                    continue;
+                                }
+                                for (lo, hi, q) in [(1u32, None, Q::Greedy), (2, Some(2u32), Q::Greedy), (0, None, Q::Greedy), (1, Some(2), Q::Lazy), (1, None, Q::Poss)] {
+                                    v.push(Repeat(bx(body.clone()), lo, hi, q));
+                                    v.push(super::api::flatten(Concat(vec![Repeat(bx(body.clone()), lo, hi, q), Lit('c')])));
+                                }
+                            }
+                        }
+                    }
+                }
+            }
+        }
         let v = gen::dedup_by_print(v);
         o.stats.class_n("spelling:condition-on-missing-group", v.len() as u64);
-        if !stage(ctx, &mut o, &fp, "conditions on groups that are not open / do not exist", &v, &gen::texts(&['a', 'b', 'c'], 3)) {
+        let mut ftexts = gen::texts(&['a', 'b', 'c'], 3);
+        ftexts.extend(gen::texts(&['x', 'a', 'b', 'c'], 4).into_iter().filter(|t| t.contains('x') && t.len() >= 3));
+        ftexts.extend(["xacxab", "xacxac", "acab", "acabc", "xabxab", "xaxab", "xcxb"].iter().map(|s| s.to_string()));
+        if !stage(ctx, &mut o, &fp, "conditions on groups that are not open / do not exist", &v, &ftexts) {
             return o;
         }
     }
